@@ -95,3 +95,52 @@ def as_dict_literal(prog, mi, e, depth=0):
     return e
 
 
+
+
+# which property's check reports a changed default of which function (first match wins; prefix of the qualified name)
+SIG_OWNERS = [
+    ("metapype.eml.validate.prune", "C15"), ("metapype.eml.validate.tree", "C05"), ("metapype.eml.validate.node", "C04"),
+    ("metapype.eml.rule.Rule._validate", "C04"), ("metapype.eml.rule.Rule.is_", "C02"), ("metapype.eml.rule.", "C04"),
+    ("metapype.eml.references.", "C16"), ("metapype.eml.evaluate.", "C19"), ("metapype.eml.export.", "C07"),
+    ("metapype.model.node.Node.shift", "C09"), ("metapype.model.node.Node.add_child", "C09"), ("metapype.model.node.Node.remove_child", "C09"),
+    ("metapype.model.node.Node.replace_child", "C14"), ("metapype.model.node.Node.delete_node_instance", "C14"), ("metapype.model.node.Node.remove_children", "C14"),
+    ("metapype.model.node.Node.set_nsmap", "C13"), ("metapype.model.node.Node.add_namespace", "C13"), ("metapype.model.node.Node.remove_namespace", "C13"),
+    ("metapype.model.node.Node.fix_nsmap", "C13"), ("metapype.model.node.Node.copy", "C12"), ("metapype.model.node.Node.is_equal", "C18"),
+    ("metapype.model.node.Node.__init__", "C06"), ("metapype.model.node.Node.find_", "C09"), ("metapype.model.node.Node.", "C09"),
+    ("metapype.model.metapype_io.to_xml", "C07"), ("metapype.model.metapype_io.from_xml", "C08"), ("metapype.model.metapype_io._process_element", "C08"),
+    ("metapype.model.metapype_io.", "C06"), ("metapype.model.mp_io.", "C06"), ("utils.convert.", "C06"),
+]
+
+
+def changed_defaults(prog):
+    """[(FuncInfo, parameter, baseline default, current default, owner property)] for every baseline function whose parameter
+    default differs from the pinned tree's (same position; a renamed parameter keeps its position)"""
+    from .normalize import load_baseline_funcs
+    base = load_baseline_funcs()
+    out = []
+    for q, fp in base.items():
+        fi = prog.funcs.get(q)
+        if fi is None or "defaults" not in fp:
+            continue
+        a = fi.node.args
+        pos = a.posonlyargs + a.args
+        cur = [None] * (len(pos) - len(a.defaults)) + [ast.unparse(d) for d in a.defaults]
+        cur += [ast.unparse(d) if d is not None else None for d in a.kw_defaults]
+        names_ = [x.arg for x in pos + a.kwonlyargs]
+        for i, old in enumerate(fp["defaults"]):
+            if i >= len(cur):
+                break
+            new = cur[i]
+            if old != new and not (old is not None and new is not None and _same_const(prog, fi, old, new)):
+                owner = next((p_ for pre, p_ in SIG_OWNERS if q.startswith(pre)), None)
+                out.append((fi, names_[i] if i < len(names_) else f"#{i}", old, new, owner))
+    return out
+
+
+def _same_const(prog, fi, old, new):
+    try:
+        a = prog.const(fi.module, ast.parse(old, mode="eval").body)
+        b = prog.const(fi.module, ast.parse(new, mode="eval").body)
+    except Exception:
+        return False
+    return a == b and type(a) is type(b) and not (a is None and old != "None" and new != "None") and repr(a) != "UNKNOWN"
